@@ -3,6 +3,7 @@
 package c15
 
 import (
+	"strings"
 	"fmt"
 	"math/rand"
 	"testing"
@@ -41,8 +42,17 @@ type caseDesc struct {
 	Widths []int  `json:"width_sequence"`
 }
 
+var hugeOK bool
+
 func pickWidth(r *rand.Rand, prev []int) int {
-	switch x := r.Intn(13); {
+	switch x := r.Intn(14); {
+	case x == 13:
+		if len(prev) > 0 && hugeOK && r.Intn(2) == 0 {
+			hugeOK = false // at most one per sequence, and only for short documents (see one): the cost of a render grows with the width
+			// absurdly wide, and congruent to an earlier width modulo 2^16 / 2^8: a width is a width, not its low bits
+			return prev[r.Intn(len(prev))] + []int{65536, 65536, 256, 131072}[r.Intn(4)]
+		}
+		return 250 + r.Intn(400)
 	case x == 12:
 		return 250 + r.Intn(400) // wider than any fixed-size helper buffer (256 blanks, ...)
 	case x == 0:
@@ -66,6 +76,14 @@ func one(c *ev.Ctx, r *rand.Rand, sample bool) {
 	o := gen.DocOpts{MaxDepth: maxDepth, MaxLinks: r.Intn(8), MaxBlocks: 1 + r.Intn(5), NoHr: false, LongWords: r.Intn(2) == 0, Unknown: r.Intn(3) == 0, LabelSeq: &seq}
 	doc := gen.AnyDoc(r, o)
 	n := 2 + r.Intn(7)
+	// (servitor's <pre> and <hr> cost grows with the square of the width - 24 s at 65536 columns - so absurd widths are only
+	// tried on documents without them; no terminal is that wide, the point is the arithmetic on the width)
+	hugeOK = len(doc.Text) < 600 && !doc.HasHr
+	for _, costly := range []string{"<pre", "<hr", "<code", "```", "---", "***", "___", "    ", "\t"} {
+		if strings.Contains(doc.Text, costly) {
+			hugeOK = false
+		}
+	}
 	var widths []int
 	// the UI's pattern: a body is shown at the pane width and, as a preview, a few columns narrower, alternating, across resizes
 	var pattern []int
